@@ -283,6 +283,8 @@ func (r *mxRunner) Step(line string) []string {
 		return []string{r.getHint(int(atoi64(a["s"])))}
 	case "req":
 		return []string{r.req(a)}
+	case "reqrel": // slice muxreq (C06): request relative to the live edge, see muxer_reqrel.go
+		return []string{r.reqrel(a)}
 	}
 	return []string{"bad-op"}
 }
